@@ -20,6 +20,7 @@ type c16Format struct {
 	fps     int64 // STL only
 	maxH    int64 // exclusive bound in hours
 	tcp     int64 // STL only: timecode start of programme (ns), added to every boundary in the file
+	vttMap  bool  // WebVTT only: the list carries a timestamp map with a non-zero LOCAL
 	metaFps int   // STL only: the frame rate named by the metadata when it is not the one the file is written at
 	write   func(s astisub.Subtitles, b *bytes.Buffer) error
 	read    func(b []byte) (*astisub.Subtitles, error)
@@ -135,6 +136,12 @@ var c16Formats = []*c16Format{
 		read:   func(b []byte) (*astisub.Subtitles, error) { return astisub.ReadFromSRT(bytes.NewReader(b)) },
 		decode: c16DecodeText(c16ReSRT, 1e6)},
 	{name: "webvtt", unit: 1e6, maxH: 100,
+		write:  func(s astisub.Subtitles, b *bytes.Buffer) error { return s.WriteToWebVTT(b) },
+		read:   func(b []byte) (*astisub.Subtitles, error) { return astisub.ReadFromWebVTT(bytes.NewReader(b)) },
+		decode: c16DecodeText(c16ReVTT, 1e6)},
+	// a list that carries an X-TIMESTAMP-MAP header (it relates the cue timeline to a transport stream: cue times
+	// themselves are written and read as they are)
+	{name: "webvtt+map", unit: 1e6, maxH: 100, vttMap: true,
 		write:  func(s astisub.Subtitles, b *bytes.Buffer) error { return s.WriteToWebVTT(b) },
 		read:   func(b []byte) (*astisub.Subtitles, error) { return astisub.ReadFromWebVTT(bytes.NewReader(b)) },
 		decode: c16DecodeText(c16ReVTT, 1e6)},
@@ -347,6 +354,9 @@ func c16Run(c *fw.Ctx) fw.Outcome {
 		}
 		sub.Metadata = &astisub.Metadata{Framerate: mf, STLDisplayStandardCode: "0", STLCreationDate: &cd, STLRevisionDate: &cd, STLTimecodeStartOfProgramme: time.Duration(f.tcp)}
 	}
+	if f.vttMap {
+		sub.Metadata = &astisub.Metadata{WebVTTTimestampMap: &astisub.WebVTTTimestampMap{Local: 3723*time.Second + 4*time.Millisecond, MpegTS: 900000}}
+	}
 	line := []astisub.Line{{Items: []astisub.LineItem{{Text: "x"}}}}
 	for k := 0; k+1 < len(ins); k += 2 {
 		sub.Items = append(sub.Items, &astisub.Item{StartAt: time.Duration(ins[k]), EndAt: time.Duration(ins[k+1]), Lines: line})
@@ -423,7 +433,7 @@ func init() {
 		Cases:       c16Total,
 		Exhaustive: func(tier string) string {
 			if tier == "thorough" {
-				return "every millisecond of [0,24h) for all ten format configurations, every second boundary +-1ns, every centisecond (SSA) and frame (STL 25/30) boundary +-1ns; random family sampled"
+				return "every millisecond of [0,24h) for all eleven format configurations, every second boundary +-1ns, every centisecond (SSA) and frame (STL 25/30) boundary +-1ns; random family sampled"
 			}
 			return ""
 		},
